@@ -325,6 +325,7 @@ type pairObs struct {
 	// function parameters (an integer parameter lives in a register), variables of an enclosing function read from a
 	// closure (references), a counted-loop variable (register) on the left / on the right. 7 characters or "-".
 	par, clo, loopL, loopR string
+	top                    string // the six operators and the lookup at top level, 7 characters ("" if not evaluated)
 }
 
 func boolObs(o object.Object, pan string) string {
@@ -475,6 +476,7 @@ func observe(c *Ctx, i, j int) pairObs {
 		}
 		return got
 	}
+	po.top = top
 	po.par = route("function-parameters", "pf=func(x,y){"+body("x", "y")+"};pf("+A+","+B+")")
 	po.clo = route("closure-references", "ph=func(x,y){pk=func(){"+body("x", "y")+"};pk()};ph("+A+","+B+")")
 	po.loopL, po.loopR = "-", "-"
@@ -483,6 +485,31 @@ func observe(c *Ctx, i, j int) pairObs {
 	}
 	if n, ok := b.obj.(object.Integer); ok && n.Value >= 0 && n.Value <= 3 {
 		po.loopR = route("loop-variable-right", fmt.Sprintf("x=%s;r=nil;for i=%d{if i>%d{r=%s}};r", A, n.Value+1, n.Value-1, body("x", "i")))
+	}
+	// one operand WRITTEN in the source text (a literal node, or a prefix / parenthesised form of one), the other one
+	// delivered by the evaluator: as a parameter (register for an integer), as a reference from a closure, as a loop variable
+	lit := func(v uval) string { // a number is written bare (a literal node; negative ones as a parenthesised prefix form)
+		switch v.obj.(type) {
+		case object.Integer, object.Float:
+			return v.src
+		}
+		return "(" + v.src + ")"
+	}
+	if b.src != "" {
+		b := uval{obj: b.obj, src: lit(b), canon: b.canon}
+		route("parameter-vs-literal", "pl=func(x){"+body("x", b.src)+"};pl("+A+")")
+		route("closure-reference-vs-literal", "ql=func(x){qk=func(){"+body("x", b.src)+"};qk()};ql("+A+")")
+		if n, ok := a.obj.(object.Integer); ok && n.Value >= 0 && n.Value <= 3 {
+			route("loop-variable-vs-literal", fmt.Sprintf("r=nil;for i=%d{if i>%d{r=%s}};r", n.Value+1, n.Value-1, body("i", b.src)))
+		}
+	}
+	if a.src != "" {
+		a := uval{obj: a.obj, src: lit(a), canon: a.canon}
+		route("literal-vs-parameter", "pr=func(y){"+body(a.src, "y")+"};pr("+B+")")
+		route("literal-vs-closure-reference", "qr=func(y){qk=func(){"+body(a.src, "y")+"};qk()};qr("+B+")")
+		if n, ok := b.obj.(object.Integer); ok && n.Value >= 0 && n.Value <= 3 {
+			route("literal-vs-loop-variable", fmt.Sprintf("r=nil;for i=%d{if i>%d{r=%s}};r", n.Value+1, n.Value-1, body(a.src, "i")))
+		}
 	}
 	// the same comparison written with literals must give the same answers as with injected objects
 	if a.src != "" && b.src != "" {
@@ -555,6 +582,52 @@ func checkUniverse(c *Ctx, u []uval, tag string) {
 			if cm[i][j] != 2 && i != j && u[i].obj.Type() != u[j].obj.Type() || (cm[i][j] == 0 && i != j) {
 				c.NonTrivial("p|" + u[i].canon + "|" + u[j].canon)
 			}
+		}
+	}
+	// the comparisons evaluated INSIDE a function that the interpreter may cache, the two operands being elements of
+	// a container argument too large to be a plain cache key (9 element array, 5 entry map): the same function is called
+	// for every pair of the universe, so containers that are == (or print alike) but hold differently typed elements
+	// (1 / 1.0, [1] / [1.0], ...) are passed one after the other, in both orders (forward pass with arrays, backward
+	// pass with maps): each call must answer what the operators answer at top level for that pair.
+	inside := func(i, j int, name, code string) {
+		if obs[i][j].top == "" {
+			return
+		}
+		cur = u
+		c.Eval()
+		res, pan := evalSrc(code)
+		got := "PPPPPPP"
+		if pan == "" && res != nil && res.Type() == object.ARRAY && len(object.Elements(res)) == 7 {
+			el := object.Elements(res)
+			var parts []string
+			for k := 0; k < 6; k++ {
+				parts = append(parts, boolObs(el[k], ""))
+			}
+			got = strings.Join(parts, "") + keyObs(el[6], "")
+		} else if pan == "" {
+			got = "?" + Canon(res)
+		}
+		if got != obs[i][j].top {
+			c.Fail("operator-depends-on-delivery:"+name, "CMP "+u[i].canon+" "+u[j].canon,
+				fmt.Sprintf("< <= > >= == != lookup give %s at top level and %s inside a function called on %s (after the same function was called on the other pairs of the universe)", obs[i][j].top, got, code))
+		}
+	}
+	inBody := func(x, y string) string {
+		var ex []string
+		for _, sy := range opSyms {
+			ex = append(ex, x+sy+y)
+		}
+		return "[" + strings.Join(ex, ",") + ",{" + x + ":7}[" + y + "]]"
+	}
+	evalSrc("caf=func(c){" + inBody("c[0]", "c[1]") + "};cmf=func(m){" + inBody("m.a", "m.b") + "}")
+	for i := 0; i < n; i++ {
+		for j := 0; j < n; j++ {
+			inside(i, j, "elements-of-array-argument", fmt.Sprintf("caf([uv(%d),uv(%d),3,4,5,6,7,8,9])", i, j))
+		}
+	}
+	for i := n - 1; i >= 0; i-- {
+		for j := n - 1; j >= 0; j-- {
+			inside(i, j, "entries-of-map-argument", fmt.Sprintf(`cmf({"a":uv(%d),"b":uv(%d),"c":3,"d":4,"e":5})`, i, j))
 		}
 	}
 	cs := func(i, j int) string { return "CMP " + u[i].canon + " " + u[j].canon }
